@@ -25,7 +25,7 @@ def run(chk, repo):
     for rid, text, m in (
         ("C13-A1", "categorize_filenames: first, second, *middle, last -> volume_directory, sar_leader, sar_imagery, sar_trailer", 2),
         ("C13-A2", "io.open feeds each file role to the matching opener, all images, in order", 4),
-        ("C13-A3", "root children are exactly summary / metadata / imagery from the matching values", 2),
+        ("C13-A3", "root children are exactly summary / metadata / imagery from the matching values", 1),
         ("C13-A4", "imagery is keyed by group.name over all image groups", 1),
         ("C13-A5", "root attrs = volume directory attrs | reference document", 1),
         ("C13-A6", "one `path` names the parsed file, the Array url and the group name", 3),
@@ -79,78 +79,142 @@ def a2_a5(chk, repo):
     op = io.func("open")
     where = f"{io.relpath}:open"
     flow = Flow(op)
-    # filenames source
-    fn = flow.single_def("filenames")
-    ok = fn is not None and norm(fn).replace('"', "'") == "summary['product_information']['data_files'].attrs"
-    chk.require(ok, "C13-A2", where, "file names come from summary/product_information/data_files", f"file names come from {short(fn, 60) if fn is not None else None}", key="open:filenames")
-    s = flow.single_def("summary")
-    chk.require(s is not None and norm(s).replace('"', "'") == "open_summary(mapper, 'summary.txt')", "C13-A2", where, "summary = open_summary(mapper, 'summary.txt')",
-                f"summary = {short(s, 50) if s is not None else None}", key="open:summary")
-    for var, opener, role in (("volume_directory", "open_volume_directory", "volume_directory"), ("sar_leader", "open_sar_leader", "sar_leader")):
-        d = flow.single_def(var)
-        ok = isinstance(d, ast.Call) and norm(d.func) == opener and len(d.args) == 2 and norm(d.args[0]) == "mapper" and norm(d.args[1]).replace('"', "'") == f"filenames['{role}']"
-        chk.require(ok, "C13-A2", where, f"{var} = {opener}(mapper, filenames[{role!r}])", f"{var} = {short(d, 70) if d is not None else None}: wrong file role for {opener}", key=f"open:{var}")
-    ig = flow.single_def("imagery_groups")
-    verdict, why = ordered_map_over(repo, op, ig, "filenames['sar_imagery']", "open_image")
+
+    def role_of(expr):
+        """'volume_directory' for <summary>['product_information']['data_files'].attrs['volume_directory'] (locals expanded)"""
+        e = flow.expand(expr)
+        if isinstance(e, ast.Subscript) and const_str(e.slice) is not None:
+            base = norm(e.value).replace('"', "'")
+            if base.endswith("['product_information']['data_files'].attrs") and "open_summary(" in base:
+                return const_str(e.slice)
+        return None
+
+    def calls_of(name):
+        out = []
+        for c in calls_in(op):
+            if any(x.key.endswith(":" + name) for x in resolve_callees(repo, op, c.func)):
+                out.append(c)
+        return out
+
+    sm = calls_of("open_summary")
+    ok = len(sm) >= 1 and all(len(c.args) == 2 and norm(c.args[0]) == "mapper" and const_str(c.args[1]) == "summary.txt" for c in sm)
+    chk.require(ok, "C13-A2", where, "the summary is read from 'summary.txt' of the product", f"summary is read by {[short(c, 50) for c in sm]}", key="open:summary")
+    for opener, role in (("open_volume_directory", "volume_directory"), ("open_sar_leader", "sar_leader")):
+        cs = calls_of(opener)
+        if len(cs) != 1 or len(cs[0].args) < 2:
+            raise AnalysisError(f"{where}: expected one call {opener}(mapper, <file name>), found {len(cs)}")
+        got = role_of(cs[0].args[1])
+        if got is None:
+            raise AnalysisError(f"{where}: the file handed to {opener} is {short(flow.expand(cs[0].args[1]), 80)}: role not decided")
+        chk.require(got == role, "C13-A2", where, f"{opener} reads the file listed as {role!r}",
+                    f"{opener} is given the file listed as {got!r} instead of {role!r}: the records of another file are parsed as the {role}", key=f"open:{role}")
+    # image groups: every 'sar_imagery' entry, in order
+    groups_expr = None
+    root = [n for n in op.own_nodes() if isinstance(n, ast.Return)]
+    imagery_ctor = None
+    for c in calls_in(op):
+        if any(x.cls is not None and x.cls.name == "Group" for x in resolve_callees(repo, op, c.func)):
+            kw = {k.arg: k.value for k in c.keywords}
+            p0 = c.args[0] if c.args else kw.get("path")
+            if p0 is not None and (const_str(p0) or "").strip("/") == "imagery":
+                imagery_ctor = c
+    if imagery_ctor is None:
+        raise AnalysisError(f"{where}: the /imagery group is not built by Group('/imagery', ...) any more")
+    ikw = {k.arg: k.value for k in imagery_ctor.keywords}
+    data = ikw.get("data")
+    if not (isinstance(data, ast.DictComp) and len(data.generators) == 1):
+        raise AnalysisError(f"{where}: imagery data is {short(data, 70) if data is not None else None}: not a dict comprehension over the image groups")
+    g = data.generators[0]
+    ok = not g.ifs and norm(data.key) == f"{norm(g.target)}.name" and norm(data.value) == norm(g.target)
+    chk.require(ok, "C13-A4", where, "imagery = {group.name: group for every image group}",
+                f"imagery data is {short(data, 70)}: groups are filtered or keyed by something else than their own name", key="open:imagery-dict")
+    ig = g.iter
+    if isinstance(ig, ast.Name):
+        ig = flow.reaching_def(ig.id, ig)
+    # the source list of the map
+    verdict, why = ordered_map_over(repo, op, ig, None, "open_image", role_of=role_of)
     if verdict is None:
         raise AnalysisError(f"{where}: image groups are built by {short(ig, 80) if ig is not None else None}: {why}; order/completeness not decided")
-    chk.require(verdict, "C13-A2", where, f"every entry of filenames['sar_imagery'] is opened by open_image, in summary order ({why})",
+    chk.require(verdict, "C13-A2", where, f"every file listed as 'sar_imagery' is opened by open_image, in summary order ({why})",
                 f"image groups are {short(ig, 80) if ig is not None else None}: {why}", key="open:imagery-map", sample={"expr": short(ig, 80) if ig is not None else None})
-    # imagery group
-    im = flow.single_def("imagery")
-    data = None
-    if isinstance(im, ast.Call):
-        for k in im.keywords:
-            if k.arg == "data":
-                data = k.value
-    ok = isinstance(data, ast.DictComp) and len(data.generators) == 1 and not data.generators[0].ifs and norm(data.generators[0].iter) == "imagery_groups" \
-        and norm(data.key) == f"{norm(data.generators[0].target)}.name" and norm(data.value) == norm(data.generators[0].target)
-    chk.require(ok, "C13-A4", where, "imagery = {group.name: group for every image group}", f"imagery data is {short(data, 70) if data is not None else None}", key="open:imagery-dict")
-    sg = flow.single_def("subgroups")
-    got = {const_str(k): norm(v) for k, v in zip(sg.keys, sg.values)} if isinstance(sg, ast.Dict) else None
-    want = {"summary": "summary", "metadata": "sar_leader", "imagery": "imagery"}
-    chk.require(got == want, "C13-A3", where, f"root children {want}", f"root children are {got}, expected {want}", key="open:children", sample={"children": got})
-    ret = [n for n in op.own_nodes() if isinstance(n, ast.Return)]
-    rk = {}
-    if ret and isinstance(ret[0].value, ast.Call):
-        rk = {k.arg: k.value for k in ret[0].value.keywords}
-    ok = rk and norm(rk.get("data")) == "subgroups" and norm(rk.get("path")).strip("'\"") == "/"
-    chk.require(ok, "C13-A3", where, "the root Group is built from exactly those children at path '/'", f"root is {short(ret[0].value, 80) if ret else None}", key="open:root")
+    # root
+    if len(root) != 1 or not isinstance(root[0].value, ast.Call):
+        raise AnalysisError(f"{where}: does not return a single Group(...)")
+    rk = {k.arg: k.value for k in root[0].value.keywords}
+    rargs = root[0].value.args
+    rpath = rk.get("path", rargs[0] if rargs else None)
+    rdata = rk.get("data")
+    if isinstance(rdata, ast.Name):
+        rdata = flow.reaching_def(rdata.id, rdata)
+    if not isinstance(rdata, ast.Dict):
+        raise AnalysisError(f"{where}: root children are {short(rdata, 60) if rdata is not None else None}: not a dict display")
+    kinds = {}
+    for k, v in zip(rdata.keys, rdata.values):
+        e = flow.expand(v)
+        t = norm(e)
+        kind = "summary" if t.startswith("open_summary(") else "leader" if t.startswith("open_sar_leader(") else "imagery" if (norm(v) == norm(imagery_ctor) or t.startswith("Group('/imagery'") or t.startswith('Group("/imagery"')) else f"?{t[:30]}"
+        if isinstance(v, ast.Name):
+            d = flow.reaching_def(v.id, v)
+            if d is imagery_ctor:
+                kind = "imagery"
+        kinds[const_str(k)] = kind
+    want = {"summary": "summary", "metadata": "leader", "imagery": "imagery"}
+    chk.require(kinds == want and const_str(rpath) == "/", "C13-A3", where, "root '/' has exactly the children summary <- summary file, metadata <- SAR leader, imagery <- image groups",
+                f"root children are {kinds} at path {const_str(rpath)!r}; expected {want} at '/'", key="open:children", sample={"children": kinds})
     attrs = rk.get("attrs")
     a = attrs
     if isinstance(a, ast.Name):
-        a = flow.single_def(a.id)
-    right = a.right if isinstance(a, ast.BinOp) else None
+        a = flow.reaching_def(a.id, a)
+    if a is not None and "volume_directory" not in norm(flow.expand(a)) and "open_volume_directory" not in norm(flow.expand(a)):
+        chk.fail("C13-A5", where, f"root attrs are {short(a, 70)}: the volume directory attributes are not part of them", key="open:root-attrs")
+        return
+    if not (isinstance(a, ast.BinOp) and isinstance(a.op, ast.BitOr)):
+        raise AnalysisError(f"{where}: root attrs are {short(a, 60) if a is not None else None}: not `<volume attrs> | <dict>`")
+    left = norm(flow.expand(a.left))
+    right = a.right
     if isinstance(right, ast.Name):
-        right = flow.single_def(right.id)
-    ok = isinstance(a, ast.BinOp) and isinstance(a.op, ast.BitOr) and norm(a.left) == "volume_directory.attrs" and isinstance(right, ast.Dict) and [const_str(k) for k in right.keys] == ["reference_document"]
-    chk.require(ok, "C13-A5", where, "root attrs = volume_directory.attrs | {'reference_document': ...}", f"root attrs are {short(a, 80) if a is not None else None}", key="open:root-attrs")
+        right = flow.reaching_def(right.id, right)
+    ok = left.startswith("open_volume_directory(") and left.endswith(".attrs") and isinstance(right, ast.Dict) and [const_str(k) for k in right.keys] == ["reference_document"]
+    chk.require(ok, "C13-A5", where, "root attrs = volume directory attrs | {'reference_document': ...}",
+                f"root attrs are {left[:60]} | {short(right, 40) if right is not None else None}", key="open:root-attrs")
 
 
-def ordered_map_over(repo, fi, expr, source_txt, fname, depth=0):
-    """is expr `f` applied to every element of the source list, in order?  -> (True|False|None, why)"""
+def ordered_map_over(repo, fi, expr, source_txt, fname, depth=0, role_of=None):
+    """is expr `f` applied to every element of the source list, in order?  -> (True|False|None, why)
+    the source is either the literal text source_txt or (role_of given) the summary's 'sar_imagery' list"""
     from ..interproc import bind_args, single_return
     if expr is None or depth > 4:
         return None, "no definition"
     flow = Flow(fi)
     txt = norm(expr).replace('"', "'")
+
+    def is_source(e):
+        if role_of is not None:
+            return role_of(e) == "sar_imagery"
+        return norm(e).replace('"', "'") == source_txt
+
+    def touches_source(e):
+        if role_of is not None:
+            return any(role_of(x) == "sar_imagery" for x in ast.walk(e) if isinstance(x, (ast.Subscript, ast.Name)))
+        return source_txt in norm(e).replace('"', "'")
+    source_txt = source_txt or "filenames['sar_imagery']"
     if isinstance(expr, ast.Call) and isinstance(expr.func, ast.Name) and expr.func.id in ("list", "tuple") and len(expr.args) == 1:
-        return ordered_map_over(repo, fi, expr.args[0], source_txt, fname, depth + 1)
+        return ordered_map_over(repo, fi, expr.args[0], source_txt, fname, depth + 1, role_of)
     if isinstance(expr, ast.Call) and isinstance(expr.func, ast.Name) and expr.func.id == "map" and len(expr.args) == 2:
-        src = norm(flow.expand(expr.args[1], depth=2)).replace('"', "'")
-        if src != source_txt and norm(expr.args[1]).replace('"', "'") != source_txt:
-            if "[" in src.replace(source_txt, "") or "sorted(" in src or "reversed(" in src or "set(" in src:
+        src = norm(expr.args[1]).replace('"', "'")
+        if not is_source(expr.args[1]):
+            if touches_source(expr.args[1]):
                 return False, f"maps over {src}: images are dropped or reordered"
             return None, f"maps over {src}"
-        return (fname in norm(flow.expand(expr.args[0], depth=2))), f"list(map({fname}, ...)) over {source_txt}"
+        return (fname in norm(flow.expand(expr.args[0], depth=2))), f"list(map({fname}, ...)) over the 'sar_imagery' list"
     if isinstance(expr, (ast.ListComp, ast.GeneratorExp)) and len(expr.generators) == 1:
         g = expr.generators[0]
         src = norm(g.iter).replace('"', "'")
         if g.ifs:
             return False, f"comprehension filters the image files ({norm(g.ifs[0])})"
-        if src != source_txt:
-            return (False, f"iterates {src}: images are dropped or reordered") if source_txt in src else (None, f"iterates {src}")
-        return (fname in norm(flow.expand(expr.elt, depth=2))), f"[{fname}(x) for x in {source_txt}]"
+        if not is_source(g.iter):
+            return (False, f"iterates {src}: images are dropped or reordered") if touches_source(g.iter) else (None, f"iterates {src}")
+        return (fname in norm(flow.expand(expr.elt, depth=2))), f"[{fname}(x) for x in the 'sar_imagery' list]"
     if isinstance(expr, ast.Call):
         cs = resolve_callees(repo, fi, expr.func)
         if len(cs) == 1 and cs[0].func is not None:
@@ -162,7 +226,7 @@ def ordered_map_over(repo, fi, expr, source_txt, fname, depth=0):
                 return None, f"{callee.qualname} re-orders"
             ret = single_return(callee)
             bound, _ = bind_args(cs[0], expr)
-            srcs = [p for p, v in bound.items() if norm(v).replace('"', "'") == source_txt]
+            srcs = [p for p, v in bound.items() if is_source(v)]
             fns = [p for p, v in bound.items() if fname in norm(flow.expand(v, depth=2))]
             if ret is not None and len(srcs) == 1 and len(fns) == 1:
                 return ordered_map_over(repo, callee, ret, srcs[0], fns[0], depth + 1)
@@ -246,39 +310,83 @@ def a8(chk, repo):
     chk.require(not (set(ignored) & set(transformers)), "C13-A8", f"{lm.relpath}:transform_metadata", "no record is both ignored and transformed", f"both ignored and transformed: {sorted(set(ignored) & set(transformers))}", key="leader:overlap")
 
 
+TO_DATATREE_SPEC = """
+def to_datatree(group, chunks=None):
+    mapping = {"/": to_dataset(group, chunks=chunks)} | {path: to_dataset(subgroup, chunks=chunks) for path, subgroup in group.subtree}
+    return xr.DataTree.from_dict(mapping)
+"""
+DECODE_COORDS_SPEC = """
+def decode_coords(ds):
+    coords = ds.attrs.pop("coordinates", [])
+    return ds.set_coords(coords)
+"""
+
+
+def _spec(chk, rule, fi, spec, good, bad, key):
+    from ..symexpr import Undecidable, compare_paths, show_paths, summarize, summarize_source
+    where = f"{fi.module.relpath}:{fi.qualname}"
+    try:
+        _, got = summarize(fi.node)
+        _, want = summarize_source(spec)
+    except Undecidable as e:
+        raise AnalysisError(f"{where} is outside the decidable fragment: {e}")
+    v = compare_paths(got, want)
+    if v == "incomparable":
+        raise AnalysisError(f"{where}: normal form {show_paths(got)[:200]} differs in shape from its specification; equivalence not decided")
+    chk.require(v == "equal", rule, where, good, f"{bad}: {show_paths(got)[:200]}", key=key)
+
+
 def a9(chk, repo):
     md = repo.module("ceos_alos2.sar_image.metadata")
     tm = md.func("transform_metadata")
-    ok = False
+    value = None
     for n in tm.own_nodes():
-        if isinstance(n, ast.AugAssign) and norm(n.target) == "group.attrs" and isinstance(n.op, ast.BitOr):
-            ok = "'coordinates': list(group.variables)" in norm(n.value).replace('"', "'")
-    chk.require(ok, "C13-A9", f"{md.relpath}:transform_metadata", "coordinates = names of the line variables, recorded before the pixel variable exists",
-                "the coordinates bookkeeping attribute is no longer list(group.variables) at metadata time", key="coords:recorded")
+        if isinstance(n, ast.Dict):
+            for k, v in zip(n.keys, n.values):
+                if k is not None and const_str(k) == "coordinates":
+                    value = v
+        if isinstance(n, ast.Assign) and isinstance(n.targets[0], ast.Subscript) and const_str(n.targets[0].slice) == "coordinates":
+            value = n.value
+    if value is None:
+        raise AnalysisError(f"{md.relpath}:transform_metadata: the 'coordinates' bookkeeping attribute is not set here any more")
+    vt = norm(Flow(tm).expand(value))
+    good = vt in ("list(group.variables)", "list(group.variables.keys())", "[name for name in group.variables]", "list(transform_line_metadata(metadata).variables)")
+    bad_const = isinstance(value, (ast.List, ast.Tuple, ast.Constant))
+    if not good and not bad_const:
+        raise AnalysisError(f"{md.relpath}:transform_metadata: coordinates = {vt[:80]}: not decided")
+    chk.require(good, "C13-A9", f"{md.relpath}:transform_metadata", "coordinates = names of the line variables, recorded before the pixel variable exists",
+                f"coordinates = {vt[:60]}: the per-line variables are no longer promoted to coordinates", key="coords:recorded")
     si = repo.module("ceos_alos2.sar_image").func("open_image")
-    t_line = [n.lineno for n in si.own_nodes() if isinstance(n, ast.Call) and norm(n.func) == "transform_metadata"]
-    d_line = [n.lineno for n in si.own_nodes() if isinstance(n, ast.Assign) and norm(n.targets[0]).replace('"', "'") == "group['data']"]
-    chk.require(bool(t_line) and bool(d_line) and t_line[0] < d_line[0], "C13-A9", "ceos_alos2/sar_image/__init__.py:open_image", "`data` is added after the coordinates were recorded",
+    t_line = [n.lineno for n in si.own_nodes() if isinstance(n, ast.Call) and any(x.key.endswith(".metadata:transform_metadata") for x in resolve_callees(repo, si, n.func))]
+    d_line = [n.lineno for n in si.own_nodes() if isinstance(n, ast.Assign) and isinstance(n.targets[0], ast.Subscript) and const_str(n.targets[0].slice) == "data"]
+    if not t_line or not d_line:
+        raise AnalysisError("ceos_alos2/sar_image/__init__.py:open_image: transform_metadata call / `group['data'] = ...` not found")
+    chk.require(t_line[0] < d_line[0], "C13-A9", "ceos_alos2/sar_image/__init__.py:open_image", "`data` is added after the coordinates were recorded",
                 "`data` is added before the coordinates are recorded: the pixel variable becomes a coordinate", key="coords:data-after")
     xm = repo.module("ceos_alos2.xarray")
-    dc = xm.func("decode_coords")
-    txt = " ".join(norm(s) for s in dc.node.body).replace('"', "'")
-    ok = "ds.attrs.pop('coordinates', [])" in txt and "set_coords(" in txt
-    chk.require(ok, "C13-A9", f"{xm.relpath}:decode_coords", "the bookkeeping attribute is popped and applied with set_coords", f"decode_coords is {txt[:100]}", key="coords:decode")
+    _spec(chk, "C13-A9", xm.func("decode_coords"), DECODE_COORDS_SPEC, "the bookkeeping attribute is popped and applied with set_coords",
+          "decode_coords no longer pops 'coordinates' and promotes those variables", "coords:decode")
     td = xm.func("to_dataset")
-    ok = any(isinstance(c.func, ast.Attribute) and c.func.attr == "pipe" and c.args and norm(c.args[0]) == "decode_coords" for c in calls_in(td)) or any(norm(c.func) == "decode_coords" for c in calls_in(td))
-    chk.require(ok, "C13-A9", f"{xm.relpath}:to_dataset", "every dataset goes through decode_coords", "to_dataset no longer applies decode_coords", key="coords:applied")
-    ok = any(isinstance(n, ast.DictComp) and "group.variables.items()" in norm(n.generators[0].iter) and not n.generators[0].ifs for n in td.own_nodes())
-    chk.require(ok, "C13-A9", f"{xm.relpath}:to_dataset", "every variable of the group is converted", "to_dataset filters or drops variables", key="dataset:all-variables")
-    tt = xm.func("to_datatree")
-    txt = " ".join(norm(s) for s in tt.node.body).replace('"', "'")
-    ok = "{'/': to_dataset(group, chunks=chunks)}" in txt and "for path, subgroup in group.subtree" in txt and "from_dict" in txt
-    chk.require(ok, "C13-A9", f"{xm.relpath}:to_datatree", "the tree maps '/' and every (path, subgroup) of group.subtree", f"to_datatree is {txt[:140]}", key="datatree:mapping")
+    from ..callgraph import CallGraph
+    g = CallGraph(repo)
+    chk.require(f"{xm.name}:decode_coords" in g.edges.get(td.key, ()), "C13-A9", f"{xm.relpath}:to_dataset", "every dataset goes through decode_coords",
+                "to_dataset no longer applies decode_coords: the bookkeeping attribute stays and nothing is promoted", key="coords:applied")
+    comps = [n for n in td.own_nodes() if isinstance(n, ast.DictComp) and "variables" in norm(n.generators[0].iter)]
+    if not comps:
+        raise AnalysisError(f"{xm.relpath}:to_dataset: variables are not converted by a dict comprehension over group.variables")
+    chk.require(not comps[0].generators[0].ifs, "C13-A9", f"{xm.relpath}:to_dataset", "every variable of the group is converted",
+                f"to_dataset filters variables ({norm(comps[0].generators[0].ifs[0]) if comps[0].generators[0].ifs else ''})", key="dataset:all-variables")
+    _spec(chk, "C13-A9", xm.func("to_datatree"), TO_DATATREE_SPEC, "the tree maps '/' and every (path, subgroup) of group.subtree",
+          "to_datatree no longer maps '/' plus every subtree entry", "datatree:mapping")
     hm = repo.module("ceos_alos2.hierarchy")
     st = hm.func("Group.subtree")
     txt = " ".join(norm(s) for s in st.node.body)
     ok = "yield (self.path, self.decouple())" in txt and "yield from item.subtree" in txt and "isinstance(item, Group)" in txt
-    chk.require(ok, "C13-A9", f"{hm.relpath}:Group.subtree", "subtree yields the node itself and recurses into every child group", f"Group.subtree is {txt[:140]}", key="subtree:walk")
+    if not ok:
+        raise AnalysisError(f"{hm.relpath}:Group.subtree is {txt[:120]}: not the recognised walk (yield self, recurse into child groups); not decided")
+    chk.ok("C13-A9", f"{hm.relpath}:Group.subtree", "subtree yields the node itself and recurses into every child group")
     ai = hm.func("Group._adjust_item")
     txt = " ".join(norm(s) for s in ai.node.body)
-    chk.require("posixpath.join(self.path, name)" in txt, "C13-A9", f"{hm.relpath}:Group._adjust_item", "child path = parent path / child name", "child path is no longer parent/name", key="adjust_item:path")
+    if "posixpath.join(self.path, name)" not in txt:
+        raise AnalysisError(f"{hm.relpath}:Group._adjust_item: child path is not posixpath.join(self.path, name); not decided")
+    chk.ok("C13-A9", f"{hm.relpath}:Group._adjust_item", "child path = parent path / child name")
